@@ -186,9 +186,9 @@ def run_shape(shape):
         tag = "_".join(words) + "/" + role
         cexinfo = {"kinds": words, "role": role}
         for path in eng.explore(body):
-            acc.paths += 1
-            if acc.reachable is None:
-                acc.reachable = prover.satisfiable(path.premises) == "sat"
+            acc.begin(prover, path)
+            if acc.reachable is not True:
+                acc.reach(prover.satisfiable(path.premises))
             if path.kind == "exc":
                 ok = isinstance(path.value, ValueError)
                 m = _model(path) if not ok else None
